@@ -43,8 +43,30 @@ class SBool:
         return decide(self.e)
 
 
+def _bv32(x):
+    if isinstance(x, SInt):
+        return z3.ZeroExt(16, x.e)
+    if isinstance(x, bool):
+        raise Unsupported("bool in integer arithmetic")
+    if isinstance(x, int):
+        if not 0 <= x < 2 ** 31:
+            raise Unsupported("integer constant out of range")
+        return z3.BitVecVal(x, 32)
+    raise Unsupported(f"integer operation with {type(x)}")
+
+
+def _f64(x):
+    if isinstance(x, SFloat):
+        return x.e
+    if isinstance(x, SInt):
+        return z3.fpSignedToFP(z3.RNE(), z3.ZeroExt(16, x.e), z3.Float64())
+    if isinstance(x, (int, float)) and not isinstance(x, bool):
+        return z3.FPVal(float(x), z3.Float64())
+    raise Unsupported(f"float operation with {type(x)}")
+
+
 class SInt:
-    """non-negative count held in a 16-bit vector"""
+    """small non-negative count held in a 16-bit vector (arithmetic is done in 32 bits, results must stay below 2**16)"""
 
     def __init__(self, e):
         self.e = e
@@ -55,28 +77,81 @@ class SInt:
     def __index__(self):
         raise Unsupported("symbolic int used as index")
 
+    def __bool__(self):
+        return decide(self.e != 0)
+
+    # int / int is a correctly rounded quotient; for operands below 2**53 it equals float(a) / float(b)
+    def __truediv__(self, o):
+        return SFloat(z3.fpDiv(z3.RNE(), _f64(self), _f64(o)))
+
+    def __rtruediv__(self, o):
+        return SFloat(z3.fpDiv(z3.RNE(), _f64(o), _f64(self)))
+
+    def _arith(self, o, f, rev=False):
+        a, b = (_bv32(o), _bv32(self)) if rev else (_bv32(self), _bv32(o))
+        return SInt(z3.Extract(15, 0, f(a, b)))  # callers keep values small (block length <= 512, factors <= 100)
+
+    def __add__(self, o):
+        return self._arith(o, lambda a, b: a + b)
+
+    __radd__ = __add__
+
+    def __mul__(self, o):
+        if isinstance(o, float):
+            return SFloat(z3.fpMul(z3.RNE(), _f64(self), _f64(o)))
+        return self._arith(o, lambda a, b: a * b)
+
+    __rmul__ = __mul__
+
+    def __sub__(self, o):
+        return self._arith(o, lambda a, b: a - b)
+
+    def __rsub__(self, o):
+        return self._arith(o, lambda a, b: a - b, rev=True)
+
+    def _cmp(self, o, f_int, f_fp):
+        if isinstance(o, (float, SFloat)):
+            return SBool(f_fp(_f64(self), _f64(o)))
+        return SBool(f_int(_bv32(self), _bv32(o)))
+
+    def __le__(self, o):
+        return self._cmp(o, z3.ULE, z3.fpLEQ)
+
+    def __lt__(self, o):
+        return self._cmp(o, z3.ULT, z3.fpLT)
+
+    def __ge__(self, o):
+        return self._cmp(o, z3.UGE, z3.fpGEQ)
+
+    def __gt__(self, o):
+        return self._cmp(o, z3.UGT, z3.fpGT)
+
+    def __eq__(self, o):
+        return self._cmp(o, lambda a, b: a == b, z3.fpEQ)
+
+    def __ne__(self, o):
+        return self._cmp(o, lambda a, b: a != b, lambda a, b: z3.Not(z3.fpEQ(a, b)))
+
+    __hash__ = None
+
 
 class SFloat:
     def __init__(self, e):
         self.e = e
 
     def __truediv__(self, o):
-        if isinstance(o, SFloat):
-            oe = o.e
-        elif isinstance(o, SInt):
-            oe = z3.fpSignedToFP(z3.RNE(), z3.ZeroExt(16, o.e), z3.Float64())
-        elif isinstance(o, int):
-            oe = z3.FPVal(float(o), z3.Float64())
-        else:
-            raise Unsupported(f"division by {type(o)}")
-        return SFloat(z3.fpDiv(z3.RNE(), self.e, oe))
+        return SFloat(z3.fpDiv(z3.RNE(), self.e, _f64(o)))
+
+    def __rtruediv__(self, o):
+        return SFloat(z3.fpDiv(z3.RNE(), _f64(o), self.e))
+
+    def __mul__(self, o):
+        return SFloat(z3.fpMul(z3.RNE(), self.e, _f64(o)))
+
+    __rmul__ = __mul__
 
     def _cmp(self, o, f):
-        if isinstance(o, (int, float)):
-            return SBool(f(self.e, z3.FPVal(float(o), z3.Float64())))
-        if isinstance(o, SFloat):
-            return SBool(f(self.e, o.e))
-        raise Unsupported(f"compare with {type(o)}")
+        return SBool(f(self.e, _f64(o)))
 
     def __le__(self, o):
         return self._cmp(o, z3.fpLEQ)
